@@ -116,6 +116,10 @@ pub fn run(ctx: &mut Ctx) {
         }
         // ---- S
         let Some(n) = node else { continue };
+        if docgen::has_anchored_empty_plain(n) {
+            ctx.count("anchored_empty_plain_skipped_by_oracle");
+            continue;
+        }
         let pol = *rng.pick(&[DuplicateKeyPolicy::Error, DuplicateKeyPolicy::FirstWins, DuplicateKeyPolicy::LastWins]);
         if n.has_alias() {
             match docgen::expand(n) {
